@@ -22,6 +22,11 @@ type (
 	Locker    = sync.Locker
 )
 
+// Passive turns the shim into the plain primitives (no yields, no log): single-task engines that
+// place the clock exactly on a time bound must not have simulated time pass inside the call under
+// test.  Set before any task starts.
+var Passive bool
+
 // SpinLimit is the number of failed acquisition attempts after which a task is declared stuck.
 var SpinLimit = 20000
 
@@ -41,6 +46,10 @@ func stuck(site string, owner int32) {
 }
 
 func (m *Mutex) Lock() {
+	if Passive {
+		m.mu.Lock()
+		return
+	}
 	site := simrt.CallerSite(2)
 	simrt.Yield(site + " Lock?")
 	for n := 0; !m.mu.TryLock(); n++ {
@@ -62,6 +71,10 @@ func (m *Mutex) TryLock() bool {
 }
 
 func (m *Mutex) Unlock() {
+	if Passive {
+		m.mu.Unlock()
+		return
+	}
 	site := simrt.CallerSite(2)
 	m.owner.Store(0)
 	m.mu.Unlock()
@@ -75,6 +88,10 @@ type RWMutex struct {
 }
 
 func (m *RWMutex) Lock() {
+	if Passive {
+		m.mu.Lock()
+		return
+	}
 	site := simrt.CallerSite(2)
 	simrt.Yield(site + " Lock?")
 	for n := 0; !m.mu.TryLock(); n++ {
@@ -88,6 +105,10 @@ func (m *RWMutex) Lock() {
 }
 
 func (m *RWMutex) Unlock() {
+	if Passive {
+		m.mu.Unlock()
+		return
+	}
 	site := simrt.CallerSite(2)
 	m.owner.Store(0)
 	m.mu.Unlock()
@@ -96,6 +117,10 @@ func (m *RWMutex) Unlock() {
 }
 
 func (m *RWMutex) RLock() {
+	if Passive {
+		m.mu.RLock()
+		return
+	}
 	site := simrt.CallerSite(2)
 	simrt.Yield(site + " RLock?")
 	for n := 0; !m.mu.TryRLock(); n++ {
@@ -108,6 +133,10 @@ func (m *RWMutex) RLock() {
 }
 
 func (m *RWMutex) RUnlock() {
+	if Passive {
+		m.mu.RUnlock()
+		return
+	}
 	site := simrt.CallerSite(2)
 	m.mu.RUnlock()
 	simrt.Sitef("%s RUnlock", site)
